@@ -133,8 +133,11 @@ OPAQUE_PREDICATES = {"isinstance", "issubclass", "_is_number", "hasattr"}
 class Interp:
     def __init__(self, hier: Hierarchy, dyn: Optional[str] = None,
                  inline: Callable[[str], bool] = lambda m: False,
-                 self_obj: Optional[Obj] = None, max_steps=20000, call_hook=None, globals=None):
+                 self_obj: Optional[Obj] = None, max_steps=20000, call_hook=None, globals=None,
+                 strict_self_calls: bool = False):
         self.hier = hier
+        # a self-call that is neither hooked nor inlined is a silent no-op unless strict
+        self.strict_self_calls = strict_self_calls
         self.dyn = dyn
         self.inline = inline
         self.self_obj = self_obj
@@ -369,6 +372,8 @@ class Interp:
             return True
         if isinstance(v, (str, int, float, tuple, list, dict, set)):
             return bool(v)
+        if isinstance(v, Obj) and "__bool__" in v.attrs:
+            return v.attrs["__bool__"]
         if isinstance(v, (Obj, Record, Sized)):
             return True
         if isinstance(v, (Val, Sym)):
@@ -407,6 +412,9 @@ class Interp:
                     eq = False
                 else:
                     eq = a.pos == b.pos
+            elif isinstance(a, Obj) and isinstance(b, Obj) and (a is b or "__eqclass__" in a.attrs or "__eqclass__" in b.attrs):
+                # objects modelled with value equality (namedtuples): equal iff same class of equal values
+                eq = a is b or (a.attrs.get("__eqclass__") is not None and a.attrs.get("__eqclass__") == b.attrs.get("__eqclass__"))
             elif isinstance(a, (Val, Sym, Obj, Record, Sized)) or isinstance(b, (Val, Sym, Obj, Record, Sized)):
                 if a is None or b is None or isinstance(a, (str, bool)) or isinstance(b, (str, bool)):
                     eq = False
@@ -431,6 +439,9 @@ class Interp:
             if isinstance(b, dict) and isinstance(a, tuple) and all(isinstance(x, (str, int, type(None))) for x in a):
                 r = a in b
                 return r if isinstance(op, ast.In) else (not r)
+            if isinstance(b, (dict, set)) and all(isinstance(k, (str, int)) for k in b) and isinstance(a, (tuple, Obj)):
+                # a tuple / opaque object never equals a string or integer key
+                return isinstance(op, ast.NotIn)
             if isinstance(b, (tuple, list)):
                 # membership is identity-or-equality: decidable for an empty
                 # container and when the very same abstract object is in it
@@ -438,6 +449,10 @@ class Interp:
                     return isinstance(op, ast.NotIn)
                 if any(x is a for x in b):
                     return isinstance(op, ast.In)
+                if isinstance(a, Obj) and all(isinstance(x, Obj) for x in b) and ("__eqclass__" in a.attrs or any("__eqclass__" in x.attrs for x in b)):
+                    ec = a.attrs.get("__eqclass__")
+                    r = ec is not None and any(x.attrs.get("__eqclass__") == ec for x in b)
+                    return r if isinstance(op, ast.In) else (not r)
             return TOP
         raise Unsupported("comparison %s" % type(op).__name__)
 
@@ -602,8 +617,12 @@ class Interp:
         if isinstance(e, (ast.ListComp, ast.GeneratorExp, ast.DictComp, ast.SetComp)):
             return TOP
         if isinstance(e, ast.BinOp):
-            self.eval(e.left, env, f)
-            self.eval(e.right, env, f)
+            a = self.eval(e.left, env, f)
+            b = self.eval(e.right, env, f)
+            if isinstance(e.op, ast.Add) and ((isinstance(a, list) and isinstance(b, list)) or (isinstance(a, tuple) and isinstance(b, tuple))):
+                return a + b
+            if isinstance(e.op, ast.BitOr) and ((isinstance(a, set) and isinstance(b, set)) or (isinstance(a, dict) and isinstance(b, dict))):
+                return a | b
             return TOP
         if isinstance(e, ast.Starred):
             return TOP
@@ -612,7 +631,16 @@ class Interp:
     def eval_call(self, c: ast.Call, env, f):
         fn = c.func
         args = [self.eval(a, env, f) for a in c.args if not isinstance(a, ast.Starred)]
-        kwargs = {k.arg: self.eval(k.value, env, f) for k in c.keywords if k.arg is not None}
+        kwargs = {}
+        for k in c.keywords:
+            if k.arg is not None:
+                kwargs[k.arg] = self.eval(k.value, env, f)
+            else:                      # **mapping
+                m = self.eval(k.value, env, f)
+                if isinstance(m, dict) and all(isinstance(x, str) for x in m):
+                    kwargs.update(m)
+                else:
+                    raise Unsupported("call with ** of a mapping the model does not know (%r)" % (m,))
         if self.call_hook is not None:
             r = self.call_hook(norm(fn), args, kwargs)
             if r is not NotImplemented:
@@ -694,6 +722,8 @@ class Interp:
                 for a in args:
                     if isinstance(a, dict):
                         d.update(a)
+                    elif isinstance(a, (list, tuple)) and all(isinstance(x, (list, tuple)) and len(x) == 2 and isinstance(x[0], (str, int)) for x in a):
+                        d.update((x[0], x[1]) for x in a)
                     else:
                         return TOP
                 d.update(kwargs)
@@ -736,6 +766,8 @@ class Interp:
                     do_inline = self.inline(m)
                 if tgt is not None and do_inline:
                     return self.invoke(tgt, args, kwargs, env.get(selfname))
+                if self.strict_self_calls:
+                    raise Unsupported("call of %s.%s(), which the model neither knows nor interprets" % (norm(recv), m))
                 return None  # not inlined: treated as a passing no-op
             base = self.eval(recv, env, f)
             if isinstance(base, set) and m in ("add", "discard") and args and isinstance(args[0], (str, int)):
